@@ -4,17 +4,17 @@
    (acked_keys, src_keys, monitors). *)
 From Coq Require Import Permutation.
 From Verif Require Import Funnel.Check Funnel.Findings Funnel.BatchProofs Funnel.LedgerProofs
-     Funnel.TaskProofs Funnel.WorkerProofs Funnel.Theorems08 Funnel.DestProofs Funnel.ProcProofs Funnel.AlignProofs Funnel.FuelProofs.
+     Funnel.TaskProofs Funnel.WorkerProofs Funnel.Theorems08 Funnel.DestProofs Funnel.ProcProofs Funnel.AlignProofs Funnel.FuelProofs Funnel.MonitorProofs.
 
 Theorem C08_batch_wf_preserved b h : WF b h ->
   (forall i j b', batch_ack b i j = Ok b' -> WF b' h) /\
   (forall i j b', batch_retry b i j = Ok b' -> WF b' h) /\
   (forall i j b', batch_filter b i j = Ok b' -> WF b' h) /\
-  (forall i errs b', batch_nack b i errs = Ok b' -> WF b' h) /\
+  (forall fx i errs b', batch_nack fx b i errs = Ok b' -> WF b' h) /\
   (forall i recs b', batch_set_records b i recs = Ok b' -> WF b' h) /\
   (forall i recs b' h', batch_split_record b h i recs = Ok (b', h') -> WF b' h') /\
   (forall from to sb, batch_sub b from to = Ok sb -> WF sb h) /\
-  (forall nIn out b' h', proc_do b h nIn out = Ok (b', h') -> WF b' h').
+  (forall fx nIn out b' h', proc_do fx b h nIn out = Ok (b', h') -> WF b' h').
 Proof. exact (batch_wf_preserved b h). Qed.
 Print Assumptions C08_batch_wf_preserved.
 
@@ -98,28 +98,68 @@ Theorem C08_retry_terminates maxA maxS :
 Proof. exact (retry_terminates maxA maxS). Qed.
 Print Assumptions C08_retry_terminates.
 
+(* the link to the runtime monitor: for a well-behaved source the model's pass never violates the
+   "acked set" clause (bit 16) of the C08 and C09 monitors *)
+Theorem C08_model_acked_set_ok c :
+  wf_source c = true -> bit16 (bits08 c (run_case c)) = false /\ bit16 (bits09 c (run_case c)) = false.
+Proof. exact (model_acked_set_ok c). Qed.
+Print Assumptions C08_model_acked_set_ok.
+
 (* the fuel of the model is not a restriction: with the fuel run_case uses, no pass ever runs out of
    it (so every pass of the model ends in Ok, a coded refusal or a panic) - for every configuration *)
 Theorem C08_fuel_suffices c : snd (run_case c) <> TFuel.
 Proof. exact (fuel_suffices c). Qed.
 Print Assumptions C08_fuel_suffices.
 
-(* REFUTED on the unchanged tree: the OUTCOME half of accounting_exact ("acked only after the
+(* REFUTED on the SHIPPED tree (model flags fixes_none; the harness probes which variant the tree
+   under test shows): the OUTCOME half of accounting_exact ("acked only after the
    destination confirmed every piece, or the DLQ the record").
    finding S3 (shared with C09/C01): empty ack replies of the destination *)
 Theorem C08_accounting_exact_outcome_refuted :
-  exists c, wf_source c = true /\ snd (run_case c) = TOk /\ mon08 c (run_case c) = false.
+  exists c, c_fix c = fixes_none /\ wf_source c = true /\ snd (run_case c) = TOk /\ mon08 c (run_case c) = false.
 Proof. exists s3_cfg. repeat split; vm_compute; reflexivity. Qed.
 Print Assumptions C08_accounting_exact_outcome_refuted.
 
-(* REFUTED on the unchanged tree (new finding): a destination nack of a piece whose run holds a
+(* REFUTED on the shipped tree (finding, repaired by bd93dd4): a destination nack of a piece whose run holds a
    filtered piece un-filters it and shifts the indices of the later ack chunks; the record the
    destination rejected is acked as delivered *)
 Theorem C08_failed_piece_dead_letters_original_refuted :
-  exists c, wf_source c = true /\ snd (run_case c) = TOk /\ mon08 c (run_case c) = false /\
+  exists c, c_fix c = fixes_none /\ wf_source c = true /\ snd (run_case c) = TOk /\ mon08 c (run_case c) = false /\
             c_dest c = mkDest None [[0; 1]; [1]] None [1] [].
 Proof. exists unfilter_cfg. repeat split; vm_compute; reflexivity. Qed.
 Print Assumptions C08_failed_piece_dead_letters_original_refuted.
+
+(* REPAIRED tree (bd93dd4), the positive form: Batch.Nack - however far it spreads over a split run -
+   leaves the set of filtered records exactly as it was, so the active-record indices that the
+   following ack chunks (and the remaining results of a processor) resolve against do not move,
+   and filterCount stays exact *)
+Theorem C08_nack_keeps_filtered_repaired b i errs b' :
+  filterCount b = count_filter (statuses b) ->
+  batch_nack true b i errs = Ok b' ->
+  fpat (statuses b') = fpat (statuses b) /\ idx_active (statuses b') 0 = idx_active (statuses b) 0 /\
+  filterCount b' = count_filter (statuses b').
+Proof. exact (batch_nack_keeps_filters b i errs b'). Qed.
+Print Assumptions C08_nack_keeps_filtered_repaired.
+
+(* REPAIRED tree (a135bc8): DestinationTask.Do returns nil only if the acks it received - all of
+   them, in order - match the positions of the written records one by one and are at least as many *)
+Theorem C08_destination_ok_means_confirmed_repaired c d ps :
+  fx_emptyack (c_fix c) = true ->
+  forall n b k w b' all w',
+    dest_loop c d b ps k n w = (Ok (b', all), w') ->
+    acks_match all (skipn k ps) = true /\ length ps <= k + length all.
+Proof. exact (dest_loop_confirmed c d ps). Qed.
+Print Assumptions C08_destination_ok_means_confirmed_repaired.
+
+(* the two refutation inputs on the repaired tree: the split record and the rejected record are
+   both dead-lettered; with empty ack replies the pass is refused and nothing is acked *)
+Theorem C08_findings_repaired :
+  (snd (run_case (with_fix unfilter_cfg fixes_all)) = TOk /\
+   mon08 (with_fix unfilter_cfg fixes_all) (run_case (with_fix unfilter_cfg fixes_all)) = true /\
+   dlq_ids (fst (run_case (with_fix unfilter_cfg fixes_all))) = [[0]; [1]]) /\
+  run_case (with_fix s3_cfg fixes_all) = ([EvWrite [([0], [0]); ([1], [1])]; EvDAck []], TErr false CNone).
+Proof. split; [exact unfilter_repaired|exact s3_repaired]. Qed.
+Print Assumptions C08_findings_repaired.
 
 (* non-vacuity: a pass with a filter, a split, an error and a retry in which every position is
    acked exactly once *)
